@@ -18,7 +18,34 @@ INC = st.sampled_from([0.1])
 
 
 @st.composite
-def cases(draw, cfg: G.GenCfg = CFG_OUT, with_boom: bool = False):
+def undone_early_case(draw, cfg: G.GenCfg):
+    """Template: a long timed (or untimed) method Pause/Hold that the user releases early, outputs changed afterwards, and the run
+    continuing well past the original end of the duration - the history in which a late, redundant Unpause/Unhold would act."""
+    reg = draw(st.sampled_from([1, 2]))
+    kind = draw(st.sampled_from(["pause", "pause", "pause", "hold"]))
+    body = [{"k": "set", "t": None, "reg": reg, "v": draw(st.integers(2, 9))}]
+    if draw(st.booleans()):
+        body.append({"k": "set", "t": None, "reg": 3 - reg, "v": draw(st.integers(2, 9))})
+    body.append({"k": kind, "t": None, "d": draw(st.sampled_from([0.8, 1.0, 1.5, 2.0]))})
+    for _ in range(draw(st.integers(1, 3))):
+        body.append({"k": "set", "t": None, "reg": draw(st.sampled_from([reg, reg, 3 - reg])), "v": draw(st.integers(2, 9))})
+        body.append({"k": "wait", "t": None, "d": draw(st.sampled_from([0.2, 0.5, 1.0]))})
+    body += draw(G.children(cfg, 1, False, False, [], min_size=0, max_size=3))
+    steps = []
+    for _ in range(draw(st.integers(8, 14))):
+        op = draw(st.sampled_from(["Unpause", "Unpause", "Unhold", "toggle-pause", "Open1", None, None]))
+        if op:
+            steps.append(["user", op])
+        for _ in range(draw(st.integers(2, 5))):
+            steps.append(["tick", 0.1])
+    hw_init = {"Out1": float(draw(st.sampled_from([0, 9, 4]))), "Out2": float(draw(st.sampled_from([1, 3, 0])))}
+    return {"tree": {"base": cfg.base_first, "body": body}, "steps": steps, "hw_init": hw_init, "autostart": True, "pre_ticks": 0}
+
+
+@st.composite
+def cases(draw, cfg: G.GenCfg = CFG_OUT, with_boom: bool = False, templates: bool = False):
+    if templates and draw(st.integers(0, 4)) == 0:
+        return draw(undone_early_case(cfg))
     tree = draw(G.program(cfg))
     if with_boom and draw(st.integers(0, 5)) == 0:
         pos = draw(st.integers(0, len(tree["body"])))
